@@ -132,14 +132,15 @@ Definition zip4 (t : tarr) : list (list Z * list (option Z) * Z * Z) :=
 
 Definition fs (s : Z) (its : list item) : list item := filter (fun it => Z.eqb s (it_split it)) its.
 
-Definition wsd (x : trec) : Z := match tr_weight x with Some w => w | None => UNITW end.
-
 Section Repr.
 Variable c : cfg.
 Variable r : option bool.
 
 Definition wta (x : trec) : Z :=
   match tr_weight x with Some w => if c_use_w c then w else UNITW | None => UNITW end.
+
+(* weight_to_use of count_splits_on_tree: the same setting since TreeArray hands it on *)
+Definition wsd (x : trec) : Z := wta x.
 
 Definition stored_of (x : trec) : list Z * list (option Z) * Z * Z :=
   (tr_splits x,
@@ -161,7 +162,7 @@ Record ReprBody (t : tarr) (l : list trec) : Prop := {
   R_uw : ta_use_w t = c_use_w c;
   R_sd_iel : sd_ign_el (ta_sd t) = c_ign_el c;
   R_sd_iag : sd_ign_ages (ta_sd t) = c_ign_ages c;
-  R_sd_uw : sd_use_w (ta_sd t) = true;
+  R_sd_uw : sd_use_w (ta_sd t) = c_use_w c;
   R_aligned : aligned t;
   R_nodup : NoDup (keys (sd_counts (ta_sd t)));
   R_sub : forall s, alook s (sd_counts (ta_sd t)) = None ->
@@ -290,7 +291,7 @@ Proof.
   destruct (count_items _ _ _ _ _ _ _) as [[c1 e1] g1] eqn:CI.
   apply count_items_spec in CI. destruct CI as (C1 & C2 & C3 & C4).
   assert (W : sd_weight (ta_sd t) x = wsd x).
-  { unfold sd_weight, wsd. rewrite (R_sd_uw _ _ R). reflexivity. }
+  { unfold sd_weight, wsd, wta. rewrite (R_sd_uw _ _ R). reflexivity. }
   rewrite W in *.
   cbn [set_sd ta_ign_el ta_use_w ta_rooting ta_ign_ages ta_splits ta_elens ta_leafsets ta_weights].
   rewrite V1, V3, V4, V5, V6, V7, Vr, V2.
